@@ -24,16 +24,18 @@ def run(ctx):
     names = sorted(n for n in names if n in optimizers.names())
     n = 10 if not ctx.thorough else 60
     ctx.rule("every optimizer of the elitist list × tasks (continuous regimes, integer-coded pairs) × min/max × 3..8 cycles × population (+0/+1/+3, ×1.5) × every validator-accepted candidate value of every algorithm parameter × seeds × serial/thread/process: best cost of generation k+1 vs generation k in the task's direction, "
-             "and best_solution vs the best ever recorded; a case = one run; non-trivial = ≥ 3 generations")
+             "plus every class at every population size 2..9 (counts int(size × fraction) degenerate to 0 or the whole population only there), and best_solution vs the best ever recorded; a case = one run; non-trivial = ≥ 3 generations")
     js = jobs.make_jobs(rng, names, ["cont-sym", "cont", "cont-zero", "cont-onesided", "mixed", "disc", "binary"], n,
                         modes=("serial", "serial", "serial", "thread") if not ctx.thorough else ("serial", "thread", "process"), max_cycles_choices=(3, 4, 6, 8), pop_scales=(1, 1, 1.5), pop_offsets=(0, 0, 1, 2, 3, 5), trace_events=False)
     # the reviewed (correspondence-only) classes get extra runs over population sizes around the documented one: residual groups of every size
     js += jobs.make_jobs(rng, sorted(n_ for n_ in d.get("reviewed", {}) if n_ in optimizers.names()), ["cont-sym", "cont"], 30 if not ctx.thorough else 120, objectives=("rastrigin", "sphere", "neg"),
                          modes=("serial",), max_cycles_choices=(4, 6, 8), pop_scales=(0.55, 0.8, 1), pop_offsets=(0, 1, 2, 3, 4, 5), trace_events=False)
     js += jobs.param_sweep_jobs(rng, names, kinds=("cont-sym", "cont", "cont-zero"), max_cycles=5, objectives=("sphere", "rastrigin", "neg"), minmaxes=("min", "max"))
+    sp = jobs.small_population_jobs(rng, names, reps=1 if not ctx.thorough else 4)
     for j in js[-len(js) // 2:]:
         if "+param" in j["kind"] and rng.random() < 0.5:
             j["cfg"]["population_size"] = optimizers.CFGS[j["name"]][1]["population_size"] + rng.choice([1, 2, 3])
+    js += sp
     results = pmap(trace.run_traced, js)
     for r in results:
         job = r["job"]
